@@ -53,7 +53,7 @@ def build_aero_point(surfaces, flow, compressible=False, rotational=False, meshe
         prob.model.connect(n + "_def_mesh", ["pt." + n + ".def_mesh", "pt.aero_states." + n + "_def_mesh"])
         prob.model.connect(n + "_t_over_c", "pt." + n + "_perf.t_over_c")
     with quiet():
-        prob.setup()
+        prob.setup(force_alloc_complex=FORCE_COMPLEX)
     return prob
 
 
@@ -107,6 +107,7 @@ def run_beam(surface, nodes, sec, loads):
     return prob
 
 
+FORCE_COMPLEX = False      # set by oracles that call check_partials (complex step needs complex vectors)
 LBGS_MAXITER = 300
 KRYLOV_PRECON = False     # with the LinearRunOnce preconditioner GMRES stagnates in forward mode on the unmodified code
 
@@ -170,7 +171,7 @@ def build_aerostruct(surfaces, flows, nonlinear="nlbgs", linear="direct", aitken
                 prob.model.connect(n + ".struct_setup.fuel_vols", pn + ".coupled." + n + ".struct_states.fuel_vols")
                 prob.model.connect("fuel_mass", pn + ".coupled." + n + ".struct_states.fuel_mass")
     with quiet():
-        prob.setup(mode=mode)
+        prob.setup(mode=mode, force_alloc_complex=FORCE_COMPLEX)
     for i in range(npts):
         coupled = getattr(prob.model, "AS_point_%d" % i).coupled
         if nonlinear == "newton":
@@ -200,5 +201,5 @@ def build_struct_alone(surface, loads=None):
     prob.model.add_subsystem(surface["name"], SpatialBeamAlone(surface=surface), promotes_inputs=["load_factor"] if needs_lf else [])
     prob.model.connect("loads", surface["name"] + ".loads")
     with quiet():
-        prob.setup()
+        prob.setup(force_alloc_complex=FORCE_COMPLEX)
     return prob
